@@ -128,6 +128,8 @@ impl<H: Hal, const SIZE: usize> VirtQueue<H, SIZE> {
             unsafe {
                 (*desc.as_ptr())[i as usize].next = i + 1;
             }
+            #[cfg(virtio_drivers_verif)]
+            crate::verif::dma(crate::verif::DmaAccess::StoreDesc, idx);
         }
 
         #[cfg(feature = "alloc")]
@@ -199,6 +201,8 @@ impl<H: Hal, const SIZE: usize> VirtQueue<H, SIZE> {
         unsafe {
             (*self.avail.as_ptr()).ring[avail_slot as usize] = head;
         }
+        #[cfg(virtio_drivers_verif)]
+        crate::verif::dma(crate::verif::DmaAccess::StoreAvailRing, self.queue_idx);
 
         // Write barrier so that device sees changes to descriptor table and available ring before
         // change to available index.
@@ -212,6 +216,8 @@ impl<H: Hal, const SIZE: usize> VirtQueue<H, SIZE> {
                 .idx
                 .store(self.avail_idx, Ordering::Release);
         }
+        #[cfg(virtio_drivers_verif)]
+        crate::verif::dma(crate::verif::DmaAccess::StoreAvailIdx, self.queue_idx);
 
         Ok(head)
     }
@@ -330,6 +336,8 @@ impl<H: Hal, const SIZE: usize> VirtQueue<H, SIZE> {
 
         // Wait until there is at least one element in the used ring.
         while !self.can_pop() {
+            #[cfg(virtio_drivers_verif)]
+            crate::verif::spin();
             spin_loop();
         }
 
@@ -350,6 +358,8 @@ impl<H: Hal, const SIZE: usize> VirtQueue<H, SIZE> {
                     .flags
                     .store(avail_ring_flags, Ordering::Release)
             }
+            #[cfg(virtio_drivers_verif)]
+            crate::verif::dma(crate::verif::DmaAccess::StoreAvailFlags, self.queue_idx);
         }
     }
 
@@ -359,11 +369,15 @@ impl<H: Hal, const SIZE: usize> VirtQueue<H, SIZE> {
     /// This will be false if the device has suppressed notifications.
     pub fn should_notify(&self) -> bool {
         if self.event_idx {
+            #[cfg(virtio_drivers_verif)]
+            crate::verif::dma(crate::verif::DmaAccess::LoadAvailEvent, self.queue_idx);
             // SAFETY: `self.used` points to a valid, aligned, initialised, dereferenceable, readable
             // instance of `UsedRing`.
             let avail_event = unsafe { (*self.used.as_ptr()).avail_event.load(Ordering::Acquire) };
             self.avail_idx >= avail_event.wrapping_add(1)
         } else {
+            #[cfg(virtio_drivers_verif)]
+            crate::verif::dma(crate::verif::DmaAccess::LoadUsedFlags, self.queue_idx);
             // SAFETY: `self.used` points to a valid, aligned, initialised, dereferenceable, readable
             // instance of `UsedRing`.
             unsafe { (*self.used.as_ptr()).flags.load(Ordering::Acquire) & 0x0001 == 0 }
@@ -379,10 +393,14 @@ impl<H: Hal, const SIZE: usize> VirtQueue<H, SIZE> {
         unsafe {
             (*self.desc.as_ptr())[index] = self.desc_shadow[index].clone();
         }
+        #[cfg(virtio_drivers_verif)]
+        crate::verif::dma(crate::verif::DmaAccess::StoreDesc, self.queue_idx);
     }
 
     /// Returns whether there is a used element that can be popped.
     pub fn can_pop(&self) -> bool {
+        #[cfg(virtio_drivers_verif)]
+        crate::verif::dma(crate::verif::DmaAccess::LoadUsedIdx, self.queue_idx);
         // SAFETY: `self.used` points to a valid, aligned, initialised, dereferenceable, readable
         // instance of `UsedRing`.
         self.last_used_idx != unsafe { (*self.used.as_ptr()).idx.load(Ordering::Acquire) }
@@ -393,6 +411,8 @@ impl<H: Hal, const SIZE: usize> VirtQueue<H, SIZE> {
     pub fn peek_used(&self) -> Option<u16> {
         if self.can_pop() {
             let last_used_slot = self.last_used_idx & (SIZE as u16 - 1);
+            #[cfg(virtio_drivers_verif)]
+            crate::verif::dma(crate::verif::DmaAccess::LoadUsedElem, self.queue_idx);
             // SAFETY: `self.used` points to a valid, aligned, initialised, dereferenceable,
             // readable instance of `UsedRing`.
             Some(unsafe { (*self.used.as_ptr()).ring[last_used_slot as usize].id as u16 })
@@ -540,7 +560,11 @@ impl<H: Hal, const SIZE: usize> VirtQueue<H, SIZE> {
         // SAFETY: `self.used` points to a valid, aligned, initialised, dereferenceable, readable
         // instance of `UsedRing`.
         unsafe {
+            #[cfg(virtio_drivers_verif)]
+            crate::verif::dma(crate::verif::DmaAccess::LoadUsedElem, self.queue_idx);
             index = (*self.used.as_ptr()).ring[last_used_slot as usize].id as u16;
+            #[cfg(virtio_drivers_verif)]
+            crate::verif::dma(crate::verif::DmaAccess::LoadUsedElem, self.queue_idx);
             len = (*self.used.as_ptr()).ring[last_used_slot as usize].len;
         }
 
@@ -563,6 +587,8 @@ impl<H: Hal, const SIZE: usize> VirtQueue<H, SIZE> {
                     .used_event
                     .store(self.last_used_idx, Ordering::Release);
             }
+            #[cfg(virtio_drivers_verif)]
+            crate::verif::dma(crate::verif::DmaAccess::StoreUsedEvent, self.queue_idx);
         }
 
         Ok(len)
